@@ -414,6 +414,8 @@ def run(ck, tier):
     F = factsmod.Facts("ws")
     from . import influence as _infl
     _infl.run(ck, F, 'C18')
+    from . import mustpass as _mp
+    _mp.run(ck, F, 'C18')
     # resumable varint decoder of the Avro reader: a short read must not lose or mis-shift the partial value (rules of C14)
     from . import c14, core
     c14.run_resumable(core.Renamed(ck, "C14.", "C18."), F)
